@@ -202,8 +202,9 @@ pub fn start_tracker(sw: u8, wm: u8) -> Tracker {
     let mut child = TrackerChild::spawn("ws", cfg, &[("AQV_PORT_PER_WORKER", "1".into())]);
     let t0 = Instant::now();
     'outer: loop {
-        if child.exited().is_some() || t0.elapsed() > Duration::from_secs(90) {
-            machinery_failure("ws tracker did not start");
+        let ex = child.exited();
+        if ex.is_some() || t0.elapsed() > Duration::from_secs(90) {
+            machinery_failure(&format!("ws tracker did not start (exit code {:?} after {:.1} s; printed {:?})", ex, t0.elapsed().as_secs_f64(), child.stdout_lines.lock().unwrap()));
         }
         for w in 0..sw {
             if std::net::TcpStream::connect_timeout(&SocketAddr::new(IpAddr::V4(Ipv4Addr::LOCALHOST), child.port + w as u16), Duration::from_millis(200)).is_err() {
@@ -912,11 +913,43 @@ pub fn main(args: &Args) -> ! {
                         work.push((p, pl.clone()));
                     }
                 }
+                // a tracker that stops answering altogether is reported at once
+                let failing = AtomicU64::new(0);
+                let stopped = AtomicU64::new(0);
                 let res = par_map(&work, 5, |(path, pl)| {
+                    if stopped.load(Ordering::Relaxed) != 0 {
+                        return ((0, None), (*path).clone(), pl.clone());
+                    }
                     let ns = NS.fetch_add(1, Ordering::Relaxed);
                     let params = Params { conns: 3, torrents: 2, offers: p_main.offers.clone(), kinds: p_main.kinds.clone(), foreign: true, answers: true, scrapes: p_main.scrapes.clone() };
-                    (replay(&trk, &params, path, ns, pl), (*path).clone(), pl.clone())
+                    let r = replay(&trk, &params, path, ns, pl);
+                    match &r.1 {
+                        Some((sig, _)) if sig != "ws/second-peer-id/error-reply-lost" => {
+                            if failing.fetch_add(1, Ordering::Relaxed) >= 8 && stopped.load(Ordering::Relaxed) == 0 {
+                                let alive = |k: u64| -> bool {
+                                    let addr = SocketAddr::new(IpAddr::V4(Ipv4Addr::LOCALHOST), trk.child.port);
+                                    match WsConn::connect(addr) {
+                                        Some(mut c) => {
+                                            let mut h = [0x5bu8; 20];
+                                            h[..8].copy_from_slice(&(ns + k).to_be_bytes());
+                                            c.send_text(json!({"action": "scrape", "info_hash": id20(&h)}).to_string()) && c.recv_text(5000).is_some()
+                                        }
+                                        None => false,
+                                    }
+                                };
+                                if !alive(0) && !alive(1) && stopped.swap(1, Ordering::Relaxed) == 0 {
+                                    let threads = proc_thread_states(trk.child.child.id());
+                                    viols.lock().unwrap().push(("ws/tracker-stopped-answering".to_string(), format!("{}: after {} consecutive failing paths the tracker does not answer a scrape on a fresh connection either (twice, 5 s each); process alive, threads: {:?}", trk.label, failing.load(Ordering::Relaxed), threads), json!({"path": path, "socket_workers": sw, "swarm_workers": wm, "conn_worker": pl.conn_worker, "torrent_worker": pl.torrent_worker})));
+                                }
+                            }
+                        }
+                        _ => failing.store(0, Ordering::Relaxed),
+                    }
+                    (r, (*path).clone(), pl.clone())
                 });
+                if stopped.load(Ordering::Relaxed) != 0 {
+                    return;
+                }
                 for ((req, v), path, pl) in res {
                     total_requests.fetch_add(req, Ordering::Relaxed);
                     total_paths.fetch_add(1, Ordering::Relaxed);
@@ -966,8 +999,16 @@ pub fn main(args: &Args) -> ! {
     for ((req, v), path) in fresh_res {
         total_requests.fetch_add(req, Ordering::Relaxed);
         total_paths.fetch_add(1, Ordering::Relaxed);
-        if let Some((sig, what)) = v {
-            viols.lock().unwrap().push((sig, format!("{} [fresh tracker, coinciding connection ids]", what), json!({"path": path, "socket_workers": 2, "swarm_workers": 2, "conn_worker": [0, 0, 1], "torrent_worker": [0, 1], "fresh": true})));
+        if let Some((sig, _)) = v {
+            // once more on its own (12 trackers were starting side by side): only a failure that reproduces counts
+            let trk = start_tracker(2, 2);
+            let params = Params { conns: 3, torrents: 2, offers: vec![], kinds: vec![], foreign: true, answers: false, scrapes: vec![] };
+            let (_, again) = replay_opt(&trk, &params, &path, NS.fetch_add(1, Ordering::Relaxed), &fresh_pl, true);
+            if let Some((sig2, what2)) = again {
+                if sig2 == sig {
+                    viols.lock().unwrap().push((sig2, format!("{} [fresh tracker, coinciding connection ids]", what2), json!({"path": path, "socket_workers": 2, "swarm_workers": 2, "conn_worker": [0, 0, 1], "torrent_worker": [0, 1], "fresh": true})));
+                }
+            }
         }
     }
     run.set("fresh_tracker_ownership_paths", fresh_paths.len() as u64);
